@@ -137,6 +137,22 @@ fn check_text(text: &str, tree: &Tree, t: &Table, acc: &mut Acc) {
                 if e.eval_iter(var_syms(len).into_iter()).is_ok() {
                     return Err(format!("eval_iter accepted {len} values for {n} variables"));
                 }
+                // iterators whose size hint is not exact: (0, Some(len)) and (0, None)
+                if e.eval_iter(var_syms(len).into_iter().filter(|_| true)).is_ok() {
+                    return Err(format!("eval_iter accepted {len} values for {n} variables from a filtering iterator (size hint (0, Some({len})))"));
+                }
+                let mut src = var_syms(len).into_iter();
+                if e.eval_iter(std::iter::from_fn(move || src.next())).is_ok() {
+                    return Err(format!("eval_iter accepted {len} values for {n} variables from iter::from_fn (size hint (0, None))"));
+                }
+            }
+            // the same iterators with the right number of values
+            let r3 = e.eval_iter(var_syms(n).into_iter().filter(|_| true)).map_err(|e| format!("eval_iter (filtering iterator) failed: {}", e.msg()))?;
+            let mut src = var_syms(n).into_iter();
+            let r4 = e.eval_iter(std::iter::from_fn(move || src.next())).map_err(|e| format!("eval_iter (iter::from_fn) failed: {}", e.msg()))?;
+            acc.transitions += 2;
+            if r3 != r0 || r4 != r0 {
+                return Err(format!("eval_iter from an iterator without exact size hint gives {} / {} but eval gives {}", show(&r3, t), show(&r4, t), show(&r0, t)));
             }
             Ok(())
         });
